@@ -682,7 +682,45 @@ class Interp:
         kind = {ast.GeneratorExp: "gen", ast.ListComp: "list", ast.SetComp: "set", ast.DictComp: "dict"}[type(e)]
         gens = e.generators  # type: ignore[attr-defined]
         if len(gens) != 1:
-            return U("nested comprehension")
+            # several generators: unrolled when every iterable is a concrete sequence
+            sub = st.fork()
+            sub.effects = st.effects
+            sub.heap = st.heap
+            sub._next = st._next
+            sub_states.append(sub)
+            out_n: List[Any] = []
+
+            def rec(i: int) -> bool:
+                if i == len(gens):
+                    if kind == "dict":
+                        out_n.append((self.eval(e.key, sub), self.eval(e.value, sub)))  # type: ignore[attr-defined]
+                    else:
+                        out_n.append(self.eval(e.elt, sub))  # type: ignore[attr-defined]
+                    return True
+                seq = self.iterate(self.eval(gens[i].iter, sub), sub)
+                if seq is None:
+                    return False
+                for el in seq:
+                    self._assign(gens[i].target, el, sub)
+                    keep = True
+                    for c in gens[i].ifs:
+                        t = self._truth_of(c, sub)
+                        if t is None:
+                            return False
+                        keep = keep and t
+                    if keep and not rec(i + 1):
+                        return False
+                return True
+
+            if not rec(0):
+                return U("nested comprehension over an unknown iterable")
+            if kind == "dict":
+                return st.alloc("dict", dict(out_n)) if self.heap else R("dict", items=tuple(out_n))
+            if kind == "set":
+                return K(frozenset(out_n))
+            if kind == "gen":
+                return K(tuple(out_n))
+            return st.alloc("list", list(out_n)) if self.heap else R("list", items=tuple(out_n))
         gen = gens[0]
         it = self.eval(gen.iter, st)
         sub = st.fork()
